@@ -76,15 +76,27 @@ def main():
         runs = int(sys.argv[sys.argv.index("--runs") + 1])
         args = [a for a in args if a != str(runs)]
     rows = []
+    # rows are appended to a journal as they are produced, so that an interrupted run can be resumed
+    journal = "/var/tmp/sensitivity_rows.jsonl"
+    done = {}
+    if os.path.exists(journal) and "--fresh" not in sys.argv:
+        for line in open(journal):
+            r = json.loads(line)
+            done[(r[0], r[1])] = r
     for name, patch, props, needs in patches():
         if args and not any(a in name for a in args):
             continue
         for prop in (PROPS if allp else props):
+            if (name, prop) in done:
+                rows.append(tuple(done[(name, prop)]))
+                continue
             res, dt, first = run_one(patch, prop, runs)
             if res == "missed" and needs.startswith("BY-DESIGN"):
                 res = "not detected (by design, see meta.json)"
             print("%-28s %-4s %-8s %5.1fs %s" % (name, prop, res, dt, first[:140]), flush=True)
             rows.append((name, prop, res, dt, first, needs))
+            with open(journal, "a") as jf:
+                jf.write(json.dumps([name, prop, res, dt, first, needs]) + "\n")
     if not args:
         with open(os.path.join(VERIF, "SENSITIVITY.md"), "w") as f:
             f.write("# Sensitivity: which check reports which deliberately broken variant\n\n")
